@@ -391,28 +391,15 @@ fn one_pass<T: Sc, F: Factory<T>>(sc: &Scenario, rep: &mut RunReport, first: boo
                 }
             }
             Op::ConcurrentQueries(_) => {
-                if let Extra::Concurrent { reference, observed, overlapped } = &st.extra {
+                if let Extra::Concurrent { reference, .. } = &st.extra {
+                    concurrent_rule(sc, rep, st, &log, "UNSTABLE_QUERY", "ConcurrentQueries");
                     if !faulted {
-                        rep.probe(if *overlapped { "concurrent_queries_overlapped" } else { "concurrent_queries_serialised" });
-                        for (i, o) in observed.iter().enumerate() {
-                            match o {
-                                Ok((s, j)) => {
-                                    if s != &reference.0 || j != &reference.1 {
-                                        let what = if s != &reference.0 { "residuals/coefficients/parameters" } else { "Jacobian" };
-                                        rep.violate(sc, "UNSTABLE_QUERY", "ConcurrentQueries", format!("op {}: caller {i} of {} simultaneous callers saw a different {what} than a caller querying alone", st.op, observed.len()));
-                                    }
-                                }
-                                Err(p) => rep.violate(sc, "PANIC", &format!("ConcurrentQueries@{}", panic_site(p)), p.clone()),
-                            }
-                        }
                         if let Some(pj) = &prev_jac {
                             if pj != &reference.1 {
                                 rep.violate(sc, "UNSTABLE_QUERY", "Jacobian", format!("two Jacobian queries without an update in between differ (op {})", st.op));
                             }
                         }
                         prev_jac = Some(reference.1.clone());
-                    } else {
-                        rep.probe("concurrent_queries_gated_by_fault");
                     }
                 }
             }
